@@ -164,13 +164,15 @@ def run(ctx):
     from pyabv.gen.programs import GenProg
     from pyabv.props.common import Inferred, ref_parse
 
-    for rt in ('def rep1 { salt: "r" splitters: uid, sid return "control" weighted 2, "variant_a" weighted 1, "variant_b" weighted 1, "control" weighted 1 }',
+    for rt in ('def twins { salt: "t" splitters: uid, UID, Uid return "a" weighted 1, "b" weighted 1, "c" weighted 1 }',
+               'def rep1 { salt: "r" splitters: uid, sid return "control" weighted 2, "variant_a" weighted 1, "variant_b" weighted 1, "control" weighted 1 }',
                'def rep2 { splitters: uid if plan == "p" { return "x" weighted 1, "y" weighted 1, "x" weighted 1, "zz" weighted 1, "y" weighted 2 } '
                'else { return "b" weighted 1, "a" weighted 1, "b" weighted 1 } }'):
         st = ref_parse(rt)
         if st[0] == "ok":
             inf = Inferred(st[1], rt)
-            envs = [dict(uid=f"u{j}", sid=j % 5, plan="p" if j % 2 else "q") for j in range(ninputs)]
+            envs = [dict(uid=f"u{j}", sid=j % 5, plan="p" if j % 2 else "q", UID=f"U{j % 7}", Uid=j) for j in range(ninputs)]
+            envs = [{k: v for k, v in e.items() if k in inf.kinds} for e in envs]
             corpus.append((inf, st[1], envs))
     # two sources sharing one experiment name, differing in weights (class-level caches keyed by name)
     twin_a = 'def same_name { salt: "t" splitters: uid, sid return "a" weighted 1, "b" weighted 1 }'
